@@ -1,29 +1,85 @@
+"""C20 - NodeSLO layering (specs/SloLayering).  The verdict is TLC's; sig() only LABELS a rejected event
+(diagnostics and known-finding key): it re-reads the logged layers to say which field of which section differs."""
+
+
+def _req_ok(r, lab):
+    k, op, vals = r["key"], r["op"], r["vals"]
+    if op == "In":
+        return k in lab and lab[k] in vals
+    if op == "NotIn":
+        return not (k in lab and lab[k] in vals)
+    if op == "Exists":
+        return k in lab
+    if op == "DoesNotExist":
+        return k not in lab
+    return False
+
+
+def _matches(sel, lab):
+    return (not sel["nil"]) and all(lab.get(k) == v for k, v in (sel["ml"] or {}).items()) \
+        and all(_req_ok(r, lab) for r in sel["me"])
+
+
+def _layered(es, d, lab, p):
+    if es["st"] != "default":
+        for en in es["nodes"]:
+            if _matches(en["sel"], lab):
+                if p in en["set"]:
+                    return en["set"][p]
+                break
+        if p in es["cluster"]:
+            return es["cluster"][p]
+    return d.get(p, "-")
+
+
+def _as_map(x):
+    return x if isinstance(x, dict) else {}
+
+
 def sig(fl):
-    """label of a rejected event (diagnostics / known-finding key only; the verdict was TLC's)"""
+    seg, idx = fl["segment"], fl["fail_index"]
     e = fl["event"]
-    exp = fl.get("expected")
-    kind = "other"
-    where = ""
-    if isinstance(exp, dict):
-        diffs = []
-        obs = e.get("obs", {})
-        for n in sorted(set(obs) | set(exp)):
-            for s in sorted(set(obs.get(n, {})) | set(exp.get(n, {}) or {})):
-                o = obs.get(n, {}).get(s, {}) or {}
-                x = (exp.get(n, {}) or {}).get(s, {}) or {}
-                for p in sorted(set(o) | set(x)):
-                    if o.get(p) != x.get(p):
-                        diffs.append((s, p, o.get(p), x.get(p)))
-        if diffs:
-            s, p, o, x = diffs[0]
-            where = " section=%s path=%s" % (s, p)
-            if p.endswith("blocks"):
-                kind = "list-elements-merged-across-layers"
-            elif s == "host-application-config":
-                kind = "hostapp-entry-without-applications-hides-cluster"
-            elif p == "totalNetworkBandwidth" and o == "'0'":
-                kind = "unset-value-field-overrides-lower-layer"
-    return "op=%s%s kind=%s" % (e.get("op"), where, kind)
+    try:
+        env = seg[0]
+        eff = {s: {"st": "default"} for s in env["dflt"]}
+        for ev in seg[1:idx + 1]:
+            if ev["op"] == "delete":
+                eff = {s: {"st": "default"} for s in eff}
+            elif ev["op"] == "update":
+                for s, c in ev["cfg"].items():
+                    if c["st"] == "absent":
+                        eff[s] = {"st": "default"}
+                    elif c["st"] == "parsed":
+                        eff[s] = {"st": "parsed", "cluster": _as_map(c["cluster"]),
+                                  "nodes": [{"sel": n["sel"], "set": _as_map(n["set"])} for n in c["nodes"]]}
+        kinds, first = set(), None
+        for n in sorted(env["nodes"]):
+            lab = _as_map(env["nodes"][n])
+            for s in sorted(eff):
+                o, d = _as_map(e["obs"][n][s]), _as_map(env["dflt"][s])
+                ps = set(d) | set(o)
+                if eff[s]["st"] == "parsed":
+                    ps |= set(eff[s]["cluster"])
+                    for en in eff[s]["nodes"]:
+                        ps |= set(en["set"])
+                for p in sorted(ps):
+                    x = _layered(eff[s], d, lab, p)
+                    if o.get(p, "-") != x:
+                        if p.endswith("blocks"):
+                            k = "list-elements-blended-across-layers"
+                        elif s == "host-application-config" and o.get(p, "-") == "-":
+                            k = "hostapp-entry-without-applications-hides-cluster-wide"
+                        elif p == "totalNetworkBandwidth" and o.get(p) == "'0'":
+                            k = "unset-value-field-overrides-lower-layer"
+                        else:
+                            k = "other"
+                        kinds.add(k)
+                        first = first or (s, p)
+        if first:
+            return "op=%s section=%s path=%s kind=%s" % (e.get("op"), first[0], first[1], "+".join(sorted(kinds)))
+    except Exception as ex:      # a label only
+        return "op=%s kind=unclassified(%s)" % (e.get("op"), type(ex).__name__)
+    return "op=%s kind=unclassified" % e.get("op")
 
 
 CONF = {
